@@ -1,18 +1,24 @@
 #!/bin/bash
-# usage: tools/regress.sh [seeded|selftest|all]  — re-run every kept breaking change against its property's check
-# (patch applied to a scratch worktree of /repo HEAD; VERIF_REPO=<scratch> ./check <id> quick). Prints one line per change.
+# usage: tools/regress.sh [seeded|selftest|all] [filter-regex] — re-run every kept breaking change against its property's
+# check (patch applied to ONE reused scratch worktree of /repo HEAD, so the Go build cache stays warm;
+# VERIF_REPO=<scratch> ./check <id> quick). Prints one line per change.
 cd "$(dirname "$0")/.."
-what=${1:-all}
+what=${1:-all}; filter=${2:-.}
+W=/tmp/regress-w
+git -C /repo worktree remove --force "$W" >/dev/null 2>&1; git -C /repo worktree prune
+git -C /repo worktree add -q "$W" HEAD || { echo "WORKTREE-FAIL"; exit 3; }
+trap 'git -C /repo worktree remove --force "$W" >/dev/null 2>&1; git -C /repo worktree prune' EXIT
 run() { # id prop patch
-  local W; W=$(mktemp -d /tmp/regress-XXXX); rmdir "$W"
-  git -C /repo worktree add -q "$W" HEAD || { echo "$1 $2 WORKTREE-FAIL"; return; }
-  P=$(readlink -f "$3"); if ! git -C "$W" apply --3way "$P" >/dev/null 2>&1 && ! git -C "$W" apply "$P" >/dev/null 2>&1; then echo "$1 $2 PATCH-DOES-NOT-APPLY"; git -C /repo worktree remove --force "$W"; return; fi
-  if ! (cd "$W" && GOFLAGS=-mod=mod GOPROXY=off go build ./... >/dev/null 2>&1); then echo "$1 $2 DOES-NOT-BUILD"; git -C /repo worktree remove --force "$W"; return; fi
+  echo "$1" | grep -Eq "$filter" || return
+  git -C "$W" checkout -q -- . ; git -C "$W" clean -fdq
+  P=$(readlink -f "$3")
+  if ! git -C "$W" apply --3way "$P" >/dev/null 2>&1 && ! git -C "$W" apply "$P" >/dev/null 2>&1; then echo "$1 $2 PATCH-DOES-NOT-APPLY"; return; fi
+  git -C "$W" reset -q
+  if ! (cd "$W" && GOFLAGS=-mod=mod GOPROXY=off go build ./... >/dev/null 2>&1); then echo "$1 $2 DOES-NOT-BUILD"; return; fi
   out=$(VERIF_REPO="$W" ./check "$2" quick 2>&1); rc=$?
   sig=$(echo "$out" | grep -m1 "what:" | sed 's/.*\[\(.*\)\] (seen.*/\1/' | cut -c1-110)
   case $rc in 0) v="MISSED";; 1) v="caught";; *) v="inconclusive";; esac
   echo "$1 $2 $v  $sig"
-  git -C /repo worktree remove --force "$W"; git -C /repo worktree prune
 }
 if [ "$what" = seeded ] || [ "$what" = all ]; then
   for d in seeded/*/; do id=$(basename "$d"); prop=$(python3 -c "import json;print(json.load(open('$d/meta.json'))['property'])"); run "$id" "$prop" "$d/patch.diff"; done
